@@ -1,4 +1,5 @@
 import OdxVerif.Proofs.CompKeyNest
+import OdxVerif.Proofs.CompKeyLinear
 /-! # C01, LENGTH-KEY tier — the round trip through the TWO-PASS encoder
     (LENGTH-KEY parameters + PARAM-LENGTH-INFO-TYPE objects).  (Separate file; imported nowhere.) -/
 namespace OdxVerif.Codec
@@ -261,6 +262,70 @@ example : ∃ cursor, decodeMessage none (Comps.toParams (KItems.comps lkExNestI
     = .ok (.dict (Comps.pair (KItems.comps lkExNestItems)).val, cursor) :=
   C01_roundtrip_lengthkey lkExNestW lkExNestItems lkExNestItems_ok (by decide) lkExNestItems_side.1 lkExNestItems_side.2.1
     lkExNestItems_side.2.2.2.2 lkExNestItems_side.2.2.1 lkExNestItems_side.2.2.2.1 none _ (fun h => by cases h)
+    (Except.eq_ok_of_toOption_lk (by decide +kernel))
+
+/-! ### non-vacuity, a key that counts BYTES: LENGTH-KEY behind a LINEAR compu method `bit length = 8 · coded value`
+    request = [ sid (0x2E, omitted);  n : LENGTH-KEY, 8 bits, LINEAR 8·x, omitted;  d : PARAM-LENGTH-INFO-TYPE A_BYTEFIELD(n), 3 bytes;  y ]
+    the key's value is 24 (bits), the coded value in the PDU is 3 -/
+def lkExLin8 : LinDesc := { num0 := 0, num1 := 8, den := 1, lower := none, upper := none }
+def lkExLin8Seg : Compu.LinSeg :=
+  { offset := 0, factor := 8, denom := 1, ilo := none, ihi := none, inv := .int 0, ity := .uint32, pty := .uint32, plo := none, phi := none }
+theorem lkExLin8_method : linMethod? lkExLin8 .uint32 .uint32 = some (.linear lkExLin8Seg) := by decide +kernel
+def lkExKeyB : Obj := ⟨"n", none, none, none, true, 8, .uint32⟩
+def lkExUserB : PLUser :=
+  { name := "d", bytePos := none, key := "n", bt := .bytefield, hl := true, v := .bytes [0xDE, 0xAD, 0xBE], raw := [0xDE, 0xAD, 0xBE] }
+def lkExByteItems : List KItem :=
+  [.comp (Comp.ofObjConst ⟨"sid", none, none, none, true, 8, .uint32⟩ (.int 0x2E) false) [],
+   .key (lkExKeyB.linKeyDop .uint32 lkExLin8) lkExKeyB 24 3 false, .user lkExUserB,
+   .comp (Comp.ofObjValue ⟨"y", none, none, none, true, 8, .uint32⟩ (.int 0x77)) []]
+def lkExByteW : String → Option Int := fun n => if n = "n" then some 24 else none
+
+example : Comps.toParams (KItems.comps lkExByteItems) =
+    [.mk "sid" none none (.codedConst (.std .uint32 none true 8 none false) (.int 0x2E)),
+     .mk "n" none none (.lengthKey (.simple (.std .uint32 none true 8 none false) .uint32 (.linear lkExLin8))),
+     .mk "d" none none (.value (.simple (.paramLen .bytefield none true "n") .bytefield .identical) none),
+     .mk "y" none none (.value (.simple (.std .uint32 none true 8 none false) .uint32 .identical) none)] := rfl
+example : (Comps.pair (KItems.comps lkExByteItems)).val =
+    [("sid", .atom (.int 0x2E)), ("n", .atom (.int 24)), ("d", .atom (.bytes [0xDE, 0xAD, 0xBE])), ("y", .atom (.int 0x77))] := rfl
+/-- the PDU: the key byte is 3 -/
+example : (encodeMessage none (Comps.toParams (KItems.comps lkExByteItems))
+      (.dict (Comps.values (KItems.comps lkExByteItems))) none true).toOption = some ([0x2E, 0x03, 0xDE, 0xAD, 0xBE, 0x77], 0) := by
+  decide +kernel
+
+theorem lkExKeyB_keyDop : KeyDop (lkExKeyB.linKeyDop .uint32 lkExLin8) lkExKeyB 24 3 :=
+  KeyDop.linear lkExKeyB ⟨rfl, by simp [lkExKeyB, Obj.ok, Obj.encOk, Obj.sizeOk]⟩ .uint32 lkExLin8 lkExLin8Seg 24 3
+    (by simp [lkExKeyB, Obj.inRange]) lkExLin8_method (by decide +kernel) (by decide +kernel) (by decide +kernel) (by decide +kernel)
+    (by decide +kernel) (by decide +kernel) (by decide +kernel)
+
+theorem lkExByteItems_ok : ∀ it ∈ lkExByteItems, it.ok lkExByteW := by
+  intro it hit
+  simp only [lkExByteItems, List.mem_cons, List.mem_nil_iff, or_false] at hit
+  rcases hit with rfl | rfl | rfl | rfl
+  · have ho : (⟨"sid", none, none, none, true, 8, .uint32⟩ : Obj).ok := by simp [Obj.ok, Obj.encOk, Obj.sizeOk]
+    have hr : (⟨"sid", none, none, none, true, 8, .uint32⟩ : Obj).inRange (.int 0x2E) := by simp [Obj.inRange]
+    exact Comp.KOk.ofKeyFree _ _ (Comp.ofObjConst_ok _ _ _ ho hr) (Comp.ofObjConst_endOk _ _ _) (Comp.ofObjConst_keyFree _ _ _ ho hr)
+  · exact lkExKeyB_keyDop
+  · exact ⟨⟨allBytes_of_all _ (by decide), Or.inl ⟨rfl, rfl, Or.inl rfl⟩⟩, rfl⟩
+  · have ho : (⟨"y", none, none, none, true, 8, .uint32⟩ : Obj).ok := by simp [Obj.ok, Obj.encOk, Obj.sizeOk]
+    have hr : (⟨"y", none, none, none, true, 8, .uint32⟩ : Obj).inRange (.int 0x77) := by simp [Obj.inRange]
+    exact Comp.KOk.ofKeyFree _ _ (Comp.ofObjValue_ok _ _ ho hr) (Comp.ofObjValue_endOk _ _) (Comp.ofObjValue_keyFree _ _ ho hr)
+
+theorem lkExByteItems_side : Comps.namesOk (KItems.comps lkExByteItems) ∧ Comps.eopLast (KItems.comps lkExByteItems) ∧
+    KItems.refsOk lkExByteW [] [] lkExByteItems ∧ KItems.covered lkExByteItems ∧ KItems.apart lkExByteItems := by
+  refine ⟨?_, ⟨rfl, rfl, rfl, trivial⟩, ⟨rfl, by simp [lkExUserB, lkExKeyB], rfl, trivial⟩, ?_, ?_⟩
+  · simp [Comps.namesOk, KItems.comps, lkExByteItems, KItem.toComp, Comp.name, Param.name, Comp.ofObjConst, Obj.toConstParam,
+      Comp.ofObjValue, Obj.toParam, Obj.toKeyParamD, PLUser.toParam, lkExKeyB, lkExUserB]
+  · intro kd o v i hm
+    simp only [lkExByteItems, List.mem_cons, List.mem_nil_iff, or_false, reduceCtorEq, false_or, KItem.key.injEq] at hm
+    obtain ⟨_, rfl, _, _, _⟩ := hm
+    exact ⟨.user lkExUserB, by simp [lkExByteItems], _, rfl⟩
+  · simp [KItems.apart, lkExByteItems, KItem.touches]
+
+/-- the theorem applies to the byte-counting key -/
+example : ∃ cursor, decodeMessage none (Comps.toParams (KItems.comps lkExByteItems)) [0x2E, 0x03, 0xDE, 0xAD, 0xBE, 0x77] true
+    = .ok (.dict (Comps.pair (KItems.comps lkExByteItems)).val, cursor) :=
+  C01_roundtrip_lengthkey lkExByteW lkExByteItems lkExByteItems_ok (by decide) lkExByteItems_side.1 lkExByteItems_side.2.1
+    lkExByteItems_side.2.2.2.2 lkExByteItems_side.2.2.1 lkExByteItems_side.2.2.2.1 none _ (fun h => by cases h)
     (Except.eq_ok_of_toOption_lk (by decide +kernel))
 
 end OdxVerif.Codec
